@@ -322,7 +322,7 @@ Section Proofs.
     repeat split; auto. unfold special. rewrite H2, H5. simpl. intros [X|[X|X]]; try discriminate; contradiction.
   Qed.
 
-  Lemma K_start : forall hd iv junk ns c progs, 0 <= c -> K (start V hd iv junk ns c progs).
+  Lemma K_start : forall hd iv ns c progs, 0 <= c -> K (start V hd iv ns c progs).
   Proof.
     intros. unfold start. apply mkK; simpl.
     - lia.
@@ -355,11 +355,11 @@ Section Proofs.
   Qed.
 
   (* generation = the run that follows qt_sinc_init (start) or qt_sinc_reset (reset) *)
-  Lemma wait_after_all_submits_start : forall hd iv junk ns c progs sched i t,
-      let s := exec V vop (start V hd iv junk ns c progs) sched in
+  Lemma wait_after_all_submits_start : forall hd iv ns c progs sched i t,
+      let s := exec V vop (start V hd iv ns c progs) sched in
       clean s -> nth_error (thrs s) i = Some t -> (t_got t <> [] \/ t_pc t = PCopy) -> all_arrived s.
   Proof.
-    intros hd iv junk ns c progs sched i t s Hc Hi Hp.
+    intros hd iv ns c progs sched i t s Hc Hi Hp.
     assert (HK : K s).
     { apply K_exec; auto. apply K_start. apply clean_exec_mono in Hc. destruct Hc as (_ & _ & H & _). exact H. }
     apply (K_special s i t HK Hi). unfold special. destruct Hp; auto.
@@ -376,13 +376,13 @@ Section Proofs.
   Qed.
 
   (* at every step of the collation (and when ready is full) no submission is outstanding or half-done *)
-  Lemma collate_sees_all_start : forall hd iv junk ns c progs sched,
-      let s := exec V vop (start V hd iv junk ns c progs) sched in
+  Lemma collate_sees_all_start : forall hd iv ns c progs sched,
+      let s := exec V vop (start V hd iv ns c progs) sched in
       clean s ->
       (forall i t, nth_error (thrs s) i = Some t -> isCol t = true -> all_arrived s) /\
       (ready s = true -> all_arrived s).
   Proof.
-    intros hd iv junk ns c progs sched s Hc.
+    intros hd iv ns c progs sched s Hc.
     assert (HK : K s).
     { apply K_exec; auto. apply K_start. apply clean_exec_mono in Hc. destruct Hc as (_ & _ & H & _). exact H. }
     split.
@@ -412,12 +412,12 @@ Section Proofs.
     - rewrite k9t in He0 by reflexivity. discriminate.
   Qed.
 
-  Lemma frozen_after_arrival_start : forall hd iv junk ns c progs sched i s' t,
-      let s := exec V vop (start V hd iv junk ns c progs) sched in
+  Lemma frozen_after_arrival_start : forall hd iv ns c progs sched i s' t,
+      let s := exec V vop (start V hd iv ns c progs) sched in
       counter s = 0 -> nth_error (thrs s) i = Some t -> step V vop s i = Some s' -> clean s' ->
       match t_pc t with PSlot _ _ | PDec _ | PAdd _ | PEmpty => False | _ => True end.
   Proof.
-    intros hd iv junk ns c progs sched i s' t s H0 Hi Hstep Hc.
+    intros hd iv ns c progs sched i s' t s H0 Hi Hstep Hc.
     pose proof (clean_mono _ _ _ Hstep Hc) as Hcs.
     assert (HK : K s).
     { apply K_exec; auto. apply K_start. apply clean_exec_mono in Hcs. destruct Hcs as (_ & _ & H & _). exact H. }
@@ -480,17 +480,287 @@ Section Proofs.
       fold_left (fun r j => vop r (nth j sl e)) (seq 0 (length sl)) e = reduce vs e.
   Proof. intros sl vs e He H. rewrite collate_fold by lia. rewrite firstn_all. auto. Qed.
 
+  (* ---------------------------------------------------------------- value: the end-to-end invariant *)
+  Definition progok (ns : nat) (o : op V) : Prop := match o with Submit _ k => (k < ns)%nat | _ => True end.
+
+  (* what the position of a thread says about result / slots / ready *)
+  Definition tokj (s : state) (t : thr) : Prop :=
+    match t_pc t with
+    | PSlot _ k => (k < nslots s)%nat
+    | PC0 => hasdata s = true
+    | PCol k => (k < nslots s)%nat /\ result s = reduce (firstn k (slots s)) (initv s)
+    | PFill => hasdata s = true -> result s = reduce (slots s) (initv s)
+    | PCopy => hasdata s = true /\ ready s = true
+    | _ => True
+    end /\
+    Forall (progok (nslots s)) (t_prog t) /\
+    (t_got t <> [] -> ready s = true) /\
+    (forall r, In (Some r) (t_got t) -> hasdata s = true /\ r = result s).
+
+  Record J (s : state) : Prop := mkJ {
+    J4 : length (slots s) = nslots s;
+    J5 : (L.cnt isCol (thrs s) <= 1)%nat;
+    J6 : allT (tokj s) (thrs s);
+    J7 : ready s = true -> L.cnt isCol (thrs s) = 0%nat /\ (hasdata s = true -> result s = reduce (slots s) (initv s));
+    J10 : reduce (slots s) (initv s) = reduce (submitted s) (initv s)
+  }.
+
+  (* a thread that is not special constrains nothing but nslots *)
+  Lemma tokj_quiet : forall s s' t, ~ special t -> tokj s t -> nslots s' = nslots s -> tokj s' t.
+  Proof.
+    intros s s' t Hns (H1 & H2 & H3 & H4) Hn. unfold special, isCol in Hns. unfold tokj. rewrite Hn.
+    assert (Hg : t_got t = []) by (destruct (t_got t); auto; exfalso; apply Hns; right; right; discriminate).
+    repeat split.
+    - destruct (t_pc t); auto; exfalso; apply Hns; auto.
+    - auto.
+    - rewrite Hg. intros X; contradiction.
+    - rewrite Hg in H. contradiction.
+    - rewrite Hg in H. contradiction.
+  Qed.
+
+  Lemma load_ok : forall hd ns p, Forall (progok ns) p ->
+      Forall (progok ns) (snd (load V hd p)) /\
+      match fst (load V hd p) with PSlot _ k => (k < ns)%nat | _ => True end.
+  Proof.
+    induction p as [|o r IH]; simpl; intros H; auto.
+    inversion H as [|? ? Ho Hr]; subst. specialize (IH Hr).
+    destruct o as [[v|] k|n|b]; simpl; auto.
+    - destruct hd; simpl; auto.
+    - destruct n; simpl; auto.
+  Qed.
+
+  Lemma tokj_next : forall s t,
+      Forall (progok (nslots s)) (t_prog t) ->
+      (t_got t <> [] -> ready s = true) -> (forall r, In (Some r) (t_got t) -> hasdata s = true /\ r = result s) ->
+      tokj s (next V (hasdata s) t).
+  Proof.
+    intros s t Hp Hg Hr. unfold tokj, next.
+    pose proof (load_ok (hasdata s) (nslots s) (t_prog t) Hp) as (Ha & Hb).
+    pose proof (load_plain (hasdata s) (t_prog t)) as Hc.
+    destruct (load V (hasdata s) (t_prog t)) as [p r]; simpl in *.
+    repeat split; auto; try (apply Hr; auto).
+    destruct p as [| | [|] | | | | | | | |]; auto; contradiction.
+  Qed.
+
+  Lemma release_col : forall hd t, isCol (release V hd t) = isCol t.
+  Proof.
+    intros hd t. unfold release. destruct (t_pc t) eqn:Hp; auto. unfold passed.
+    destruct (tgt && hd)%bool.
+    - unfold isCol, setpc; simpl. rewrite Hp. reflexivity.
+    - destruct (next_facts hd (mkthr V (t_pc t) (t_prog t) (t_got t ++ [None]))) as (_ & -> & _). unfold isCol. rewrite Hp. reflexivity.
+  Qed.
+
+  Lemma in_app_none : forall (g : list (option V)) r, In (Some r) (g ++ [None]) -> In (Some r) g.
+  Proof. intros g r H. apply in_app_or in H. destruct H as [H|[H|[]]]; auto. discriminate. Qed.
+
+  (* effect of getting past the readFF when ready is full *)
+  Lemma tokj_passed : forall s tgt t,
+      ready s = true -> tokj s t -> tokj s (passed V (hasdata s) tgt t).
+  Proof.
+    intros s tgt t Hr (H1 & H2 & H3 & H4). unfold passed.
+    destruct (tgt && hasdata s)%bool eqn:Hb.
+    - apply andb_prop in Hb. destruct Hb as (_ & Hh). unfold tokj, setpc; simpl. repeat split; auto; apply H4; auto.
+    - apply tokj_next; simpl; auto. intros r Hin. apply H4. apply in_app_none. auto.
+  Qed.
+
+  Lemma quiet_of_pos : forall s, K s -> counter s <> 0 -> ready s = false /\ (forall j u, nth_error (thrs s) j = Some u -> ~ special u).
+  Proof.
+    intros s HK Hnz. split.
+    - destruct (ready s) eqn:Hr; auto. exfalso. apply Hnz. apply (K7 _ HK). auto.
+    - intros j u Hj Hs. apply Hnz. apply (K6 _ HK _ _ Hj Hs).
+  Qed.
+
+  Ltac cntcol l i t x Hi :=
+    let Hc := fresh "Hcc" in
+    pose proof (L.cnt_upd isCol l i t x Hi) as Hc; unfold L.b2n in Hc.
+
+  Lemma J_step : forall s i s', K s -> J s -> step V vop s i = Some s' -> clean s' -> J s'.
+  Proof.
+    intros s i s' HK HJ Hstep Hc.
+    pose proof (clean_mono _ _ _ Hstep Hc) as Hcs.
+    pose proof (K_step _ _ _ HK Hstep Hc) as HK'.
+    destruct HJ as [j4 j5 j6 j7 j10].
+    unfold step in Hstep. destruct (nth_error (thrs s) i) as [t|] eqn:Hi; [|discriminate].
+    pose proof (j6 _ _ Hi) as j6t. pose proof (K6 _ HK _ _ Hi) as k6t. pose proof (K9 _ HK _ _ Hi) as k9t. cbv beta in k6t, k9t.
+    pose proof (K1 _ HK) as k1. pose proof (K2 _ HK) as k2. pose proof (K3 _ HK) as k3. pose proof (K7 _ HK) as k7.
+    pose proof (quiet_of_pos _ HK) as Hquiet.
+    destruct Hc as (He & Ho & Hc0' & Hb). destruct Hcs as (He0 & Ho0 & _ & Hb0).
+    destruct s as [hd iv ns cnt rdy sl res l c dcs eps stt sub e0 ov]; simpl in *.
+    destruct t as [p pr g]; simpl in *. unfold special in k6t; simpl in k6t.
+    destruct j6t as (jp & jprog & jg1 & jg2); simpl in *.
+    destruct p as [|v k|fresh| |k| |n| |tgt|tgt|]; try discriminate; inversion Hstep; subst s'; clear Hstep; simpl in *;
+      rewrite ?updn_upd in *.
+    - (* PSlot: counter > 0, everybody is quiet *)
+      apply orb_false_elim in Ho. destruct Ho as (_ & Hlt). apply Z.leb_gt in Hlt.
+      assert (Hnz : cnt <> 0) by lia. destruct (Hquiet Hnz) as (Hrdy & Hq). subst rdy.
+      cntcol l i (mkthr V (PSlot v k) pr g) (setpc V (mkthr V (PSlot v k) pr g) (PDec false)) Hi. simpl in Hcc.
+      apply mkJ; simpl; rewrite ?updn_upd.
+      + rewrite L.length_upd. auto.
+      + lia.
+      + rewrite <- updn_upd. apply allT_updn.
+        * intros j u Hj. apply (tokj_quiet _ _ u (Hq _ _ Hj) (j6 _ _ Hj)). reflexivity.
+        * assert (Hg : g = []).
+          { destruct g; auto. exfalso. apply (Hq _ _ Hi). right. right. simpl. discriminate. }
+          subst g. unfold tokj; simpl. repeat split; auto; try contradiction. intros X; contradiction.
+      + intros X; discriminate.
+      + rewrite <- updn_upd. rewrite reduce_updn by lia. rewrite reduce_app. simpl. rewrite j10. reflexivity.
+    - (* PDec *)
+      assert (Hpos : 1 <= cnt).
+      { destruct fresh; simpl in *.
+        - apply orb_false_elim in Ho. destruct Ho as (_ & Hlt). apply Z.leb_gt in Hlt. lia.
+        - pose proof (mid_pos l i _ Hi eq_refl). lia. }
+      assert (Hnz : cnt <> 0) by lia. destruct (Hquiet Hnz) as (Hrdy & Hq). subst rdy.
+      assert (Hg : g = []).
+      { destruct g; auto. exfalso. apply (Hq _ _ Hi). right. right. simpl. discriminate. }
+      subst g.
+      assert (Hnocol : L.cnt isCol l = 0%nat).
+      { apply L.cnt_none. intros j u Hj. destruct (isCol u) eqn:E; auto. exfalso. apply (Hq _ _ Hj). left. auto. }
+      remember (if cnt =? 1 then setpc V (mkthr V (PDec fresh) pr []) (if hd then PC0 else PFill) else next V hd (mkthr V (PDec fresh) pr [])) as t' eqn:Ht'.
+      cntcol l i (mkthr V (PDec fresh) pr []) t' Hi. cbn [isCol t_pc] in Hcc.
+      assert (Hle : (L.b2n (isCol t') <= 1)%nat) by (destruct (isCol t'); simpl; lia). unfold L.b2n in Hle.
+      apply mkJ; simpl; rewrite ?updn_upd.
+      + auto.
+      + lia.
+      + rewrite <- updn_upd. apply allT_updn.
+        * intros j u Hj. apply (tokj_quiet _ _ u (Hq _ _ Hj) (j6 _ _ Hj)). reflexivity.
+        * subst t'. destruct (cnt =? 1).
+          -- unfold tokj, setpc; simpl. destruct hd; simpl; repeat split; auto; try contradiction; try discriminate; intros X; contradiction.
+          -- apply (tokj_next (mkst V hd iv ns (wrap64 (cnt - 1)) false sl res _ c (S dcs) eps _ sub e0 _) (mkthr V (PDec fresh) pr [])); simpl; auto.
+             ++ intros X; contradiction.
+             ++ intros r X; contradiction.
+      + intros X; discriminate.
+      + auto.
+    - (* PC0 *)
+      assert (H0 : cnt = 0) by (apply k6t; left; reflexivity).
+      assert (Hone : L.cnt isCol l = 1%nat) by (pose proof (L.cnt_pos_of isCol l i _ Hi eq_refl); lia).
+      assert (Hrdy : rdy = false) by (destruct rdy; auto; destruct (j7 eq_refl); lia). subst rdy.
+      remember (setpc V (mkthr V PC0 pr g) (match ns with O => PFill | S _ => PCol 0 end)) as t' eqn:Ht'.
+      assert (Hct : isCol t' = true) by (subst t'; destruct ns; reflexivity).
+      cntcol l i (mkthr V PC0 pr g) t' Hi. rewrite Hct in Hcc. cbn [isCol t_pc] in Hcc.
+      assert (Hg : g = []) by (destruct g; auto; discriminate (jg1 ltac:(discriminate))). subst g.
+      apply mkJ; simpl; rewrite ?updn_upd.
+      + auto.
+      + lia.
+      + rewrite <- updn_upd. intros j u Hj. rewrite updn_upd in Hj. apply L.nth_upd_inv in Hj. destruct Hj as [[-> ->]|[Hne Hj]].
+        * subst t'. unfold tokj, setpc; simpl. destruct ns; simpl; repeat split; auto; try contradiction; try lia; try (intros X; contradiction).
+          intros _. destruct sl; simpl in *; [reflexivity|discriminate].
+        * pose proof (L.cnt_one_others isCol l i _ Hone Hi eq_refl j u Hne Hj) as Hnc.
+          pose proof (j6 _ _ Hj) as (u1 & u2 & u3 & u4).
+          apply (tokj_quiet (mkst V hd iv ns cnt false sl res l c dcs eps stt sub e0 ov)); auto; [|split; auto].
+          unfold special. rewrite Hnc. intros [X|[X|X]]; try discriminate.
+          -- rewrite X in u1. destruct u1 as (_ & Y). discriminate.
+          -- discriminate (u3 X).
+      + intros X; discriminate.
+      + auto.
+    - (* PCol *)
+      assert (H0 : cnt = 0) by (apply k6t; left; reflexivity).
+      assert (Hone : L.cnt isCol l = 1%nat) by (pose proof (L.cnt_pos_of isCol l i _ Hi eq_refl); lia).
+      assert (Hrdy : rdy = false) by (destruct rdy; auto; destruct (j7 eq_refl); lia). subst rdy.
+      remember (setpc V (mkthr V (PCol k) pr g) (if (S k <? ns)%nat then PCol (S k) else PFill)) as t' eqn:Ht'.
+      assert (Hct : isCol t' = true) by (subst t'; destruct (S k <? ns)%nat; reflexivity).
+      cntcol l i (mkthr V (PCol k) pr g) t' Hi. rewrite Hct in Hcc. cbn [isCol t_pc] in Hcc.
+      assert (Hg : g = []) by (destruct g; auto; discriminate (jg1 ltac:(discriminate))). subst g.
+      destruct jp as (Hk & Hres).
+      assert (Hnew : vop res (nth k sl iv) = reduce (firstn (S k) sl) iv).
+      { rewrite (firstn_S_nth sl k iv) by lia. rewrite reduce_app. simpl. rewrite Hres. reflexivity. }
+      apply mkJ; simpl; rewrite ?updn_upd.
+      + auto.
+      + lia.
+      + rewrite <- updn_upd. intros j u Hj. rewrite updn_upd in Hj. apply L.nth_upd_inv in Hj. destruct Hj as [[-> ->]|[Hne Hj]].
+        * subst t'. unfold tokj, setpc; simpl. destruct (S k <? ns)%nat eqn:Hlt; simpl; repeat split; auto; try contradiction; try (intros X; contradiction).
+          -- apply Nat.ltb_lt in Hlt. auto.
+          -- intros _. apply Nat.ltb_ge in Hlt. rewrite Hnew. rewrite firstn_all2 by lia. reflexivity.
+        * pose proof (L.cnt_one_others isCol l i _ Hone Hi eq_refl j u Hne Hj) as Hnc.
+          pose proof (j6 _ _ Hj) as (u1 & u2 & u3 & u4).
+          apply (tokj_quiet (mkst V hd iv ns cnt false sl res l c dcs eps stt sub e0 ov)); auto; [|split; auto].
+          unfold special. rewrite Hnc. intros [X|[X|X]]; try discriminate.
+          -- rewrite X in u1. destruct u1 as (_ & Y). discriminate.
+          -- discriminate (u3 X).
+      + intros X; discriminate.
+      + auto.
+    - (* PFill *)
+      assert (Hone : L.cnt isCol l = 1%nat) by (pose proof (L.cnt_pos_of isCol l i _ Hi eq_refl); lia).
+      assert (Hm : nth_error (map (release V hd) l) i = Some (mkthr V PFill pr g)).
+      { rewrite nth_error_map, Hi. reflexivity. }
+      destruct (next_facts hd (mkthr V PFill pr g)) as (Hn1 & Hn2 & Hn3 & Hn4 & Hn5).
+      cntcol (map (release V hd) l) i (mkthr V PFill pr g) (next V hd (mkthr V PFill pr g)) Hm.
+      rewrite Hn2 in Hcc. cbn [isCol t_pc] in Hcc. rewrite (cnt_map_same isCol (release V hd) l (release_col hd)) in Hcc.
+      set (s1 := mkst V hd iv ns cnt true sl res l c dcs eps stt sub e0 ov).
+      assert (Hmono : forall u, tokj (mkst V hd iv ns cnt rdy sl res l c dcs eps stt sub e0 ov) u -> tokj s1 u).
+      { intros u (u1 & u2 & u3 & u4). unfold tokj; simpl in *. repeat split; auto; try (apply u4; auto).
+        destruct (t_pc u); auto. destruct u1; auto. }
+      apply mkJ; simpl; rewrite ?updn_upd.
+      + auto.
+      + lia.
+      + rewrite <- updn_upd. apply allT_updn_map.
+        * intros u Hu. pose proof (Hmono u (allT_In _ _ _ j6 Hu)) as Hu1.
+          unfold release. destruct (t_pc u) eqn:Hp; auto;
+            try (destruct Hu1 as (u1 & u2 & u3 & u4); unfold tokj in *; simpl in *; rewrite Hp in *; repeat split; auto; fail).
+          apply (tokj_passed s1 tgt u eq_refl Hu1).
+        * apply (tokj_next s1 (mkthr V PFill pr g)); simpl; auto.
+      + intros _. split; [lia|]. auto.
+      + auto.
+    - (* PAdd *)
+      apply orb_false_elim in He. destruct He as (_ & Hnz). apply Z.eqb_neq in Hnz.
+      rewrite (proj2 (Z.eqb_neq _ _) Hnz) in *.
+      destruct (Hquiet Hnz) as (Hrdy & Hq). subst rdy.
+      assert (Hg : g = []).
+      { destruct g; auto. exfalso. apply (Hq _ _ Hi). right. right. simpl. discriminate. }
+      subst g.
+      destruct (next_facts hd (mkthr V (PAdd n) pr [])) as (Hn1 & Hn2 & Hn3 & Hn4 & Hn5).
+      cntcol l i (mkthr V (PAdd n) pr []) (next V hd (mkthr V (PAdd n) pr [])) Hi. rewrite Hn2 in Hcc. cbn [isCol t_pc] in Hcc.
+      apply mkJ; simpl; rewrite ?updn_upd.
+      + auto.
+      + lia.
+      + rewrite <- updn_upd. apply allT_updn.
+        * intros j u Hj. apply (tokj_quiet _ _ u (Hq _ _ Hj) (j6 _ _ Hj)). reflexivity.
+        * apply (tokj_next (mkst V hd iv ns (wrap64 (cnt + Z.of_nat n)) false sl res l c dcs (eps + Z.of_nat n) stt sub e0 ov) (mkthr V (PAdd n) pr [])); simpl; auto.
+          -- intros X; contradiction.
+          -- intros r X; contradiction.
+      + intros X; discriminate.
+      + auto.
+    - (* PEmpty *)
+      rewrite k9t in He0 by reflexivity. discriminate.
+    - (* PRead *)
+      set (s0 := mkst V hd iv ns cnt rdy sl res l c dcs eps stt sub e0 ov).
+      remember (if rdy then passed V hd tgt (mkthr V (PRead tgt) pr g) else setpc V (mkthr V (PRead tgt) pr g) (PBlk tgt)) as t' eqn:Ht'.
+      assert (Hct : isCol t' = false).
+      { subst t'. destruct rdy; [|reflexivity]. unfold passed. destruct (tgt && hd)%bool; [reflexivity|]. apply next_facts. }
+      cntcol l i (mkthr V (PRead tgt) pr g) t' Hi. rewrite Hct in Hcc. cbn [isCol t_pc] in Hcc.
+      apply mkJ; simpl; rewrite ?updn_upd.
+      + auto.
+      + lia.
+      + rewrite <- updn_upd. apply allT_updn; auto. subst t'. destruct rdy eqn:Hr.
+        * apply (tokj_passed s0 tgt (mkthr V (PRead tgt) pr g) eq_refl). unfold tokj; simpl. auto.
+        * unfold tokj, setpc; simpl. auto.
+      + intros Hr. destruct (j7 Hr) as (A & B). split; auto. lia.
+      + auto.
+    - (* PCopy *)
+      set (s0 := mkst V hd iv ns cnt rdy sl res l c dcs eps stt sub e0 ov).
+      destruct jp as (Hhd & Hrdy).
+      destruct (next_facts hd (mkthr V PCopy pr (g ++ [Some res]))) as (Hn1 & Hn2 & Hn3 & Hn4 & Hn5).
+      cntcol l i (mkthr V PCopy pr g) (next V hd (mkthr V PCopy pr (g ++ [Some res]))) Hi. rewrite Hn2 in Hcc. cbn [isCol t_pc] in Hcc.
+      apply mkJ; simpl; rewrite ?updn_upd.
+      + auto.
+      + lia.
+      + rewrite <- updn_upd. apply allT_updn; auto.
+        apply (tokj_next s0 (mkthr V PCopy pr (g ++ [Some res]))); simpl; auto.
+        intros r Hin. apply in_app_or in Hin. destruct Hin as [Hin|[Hin|[]]]; auto. inversion Hin; subst. auto.
+      + intros Hr. destruct (j7 Hr) as (A & B). split; auto. lia.
+      + auto.
+  Qed.
+
   (* ---------------------------------------------------------------- reset *)
   Lemma reset_fresh_pos : forall s n progs, n <> 0 ->
-      reset V s n progs = start V (hasdata s) (initv s) (result s) (nslots s) n progs.
+      reset V s n progs = start V (hasdata s) (initv s) (nslots s) n progs.
   Proof. intros s n progs Hn. unfold reset, start. apply Z.eqb_neq in Hn. rewrite Hn. reflexivity. Qed.
 
   Lemma reset_fresh_zero_complete : forall s progs, ready s = true ->
-      reset V s 0 progs = start V (hasdata s) (initv s) (result s) (nslots s) 0 progs.
+      reset V s 0 progs = start V (hasdata s) (initv s) (nslots s) 0 progs.
   Proof. intros s progs Hr. unfold reset, start. simpl. rewrite Hr. reflexivity. Qed.
 
   Lemma reset_zero_incomplete_differs_lemma : forall s progs, ready s = false ->
-      ready (reset V s 0 progs) = false /\ ready (start V (hasdata s) (initv s) (result s) (nslots s) 0 progs) = true.
+      ready (reset V s 0 progs) = false /\ ready (start V (hasdata s) (initv s) (nslots s) 0 progs) = true.
   Proof. intros s progs Hr. unfold reset, start. simpl. auto. Qed.
 End Proofs.
 
@@ -502,21 +772,27 @@ Definition w_sched : list nat := [0;0;1;1;0;0;0;2;2]%nat.
 (* without the proviso (an expect finds the count at zero while the collator is on its way to fill ready):
    a wait completes although one expected submission is still outstanding *)
 Lemma wait_without_proviso_refuted_lemma :
-  let s := exec nat Nat.add (start nat true 0%nat 0%nat 1 1 w_progs) w_sched in
+  let s := exec nat Nat.add (start nat true 0%nat 1 1 w_progs) w_sched in
   exp0 s = true /\ over s = false /\
   (exists t, nth_error (thrs s) 2 = Some t /\ t_got t <> []) /\ Z.of_nat (decs s) < c0 s + exps s /\ counter s = 1.
 Proof. vm_compute. repeat split; try reflexivity. eexists. split; [reflexivity|discriminate]. Qed.
 
-(* a sinc created for zero submissions: wait delivers the never-written result buffer, not the initial value *)
-Lemma sinc_value_zero_count_refuted_lemma :
-  let s := exec nat Nat.add (start nat true 0%nat 77%nat 1 0 [[Wait true]]) [0;0]%nat in
-  exp0 s = false /\ over s = false /\
-  (exists t, nth_error (thrs s) 0 = Some t /\ t_got t = [Some 77%nat]) /\ reduce nat Nat.add (submitted s) 0%nat = 0%nat.
+(* regression of the defect fixed by /repo 15fe3d8 (result buffer never written when nothing is expected): a sinc
+   created for zero submissions, and one reset to zero after a completed generation, deliver the initial value *)
+Example zero_count_delivers_initial_value :
+  let s := exec nat Nat.add (start nat true 0%nat 1 0 [[Wait true]]) [0;0]%nat in
+  exp0 s = false /\ over s = false /\ (exists t, nth_error (thrs s) 0 = Some t /\ t_got t = [Some 0%nat]).
 Proof. vm_compute. repeat split; try reflexivity. eexists. split; reflexivity. Qed.
+
+Example reset_zero_delivers_initial_value :
+  let s1 := exec nat Nat.add (start nat true 0%nat 1 1 [[Submit (Some 5%nat) 0]]) [0;0;0;0;0]%nat in
+  let s := exec nat Nat.add (reset nat s1 0 [[Wait true]]) [0;0]%nat in
+  result s1 = 5%nat /\ (exists t, nth_error (thrs s) 0 = Some t /\ t_got t = [Some 0%nat]).
+Proof. vm_compute. split; [reflexivity|]. eexists. split; reflexivity. Qed.
 
 (* non-vacuity: a clean run in which a wait completes *)
 Example clean_run_completes :
-  let s := exec nat Nat.add (start nat true 0%nat 9%nat 2 2
+  let s := exec nat Nat.add (start nat true 0%nat 2 2
              [[Expect 1; Submit (Some 5%nat) 0; Submit (Some 6%nat) 1]; [Submit (Some 7%nat) 1]; [Wait true]])
              [2;0;0;0;1;1;0;0;0;0;0;0;2]%nat in
   exp0 s = false /\ over s = false /\ (exists t, nth_error (thrs s) 2 = Some t /\ t_got t = [Some 18%nat]) /\ decs s = 3%nat.
